@@ -45,10 +45,11 @@ fn dispatch(toks: &[&str]) -> String {
         "crc32" | "crc16" | "imdtrk" | "codec" => codec::dispatch(toks),
         "deseq" | "dosbin" | "dostok" | "pack" | "txtb" => packrun::dispatch(toks),
         "malform" => malform::run(toks),
-        "wozchunk" | "imdparse" | "dosunbin" => malform::pieces(toks),
+        "wozchunk" | "imdparse" | "dosunbin" | "dasmsweep" => malform::pieces(toks),
         "cells" => cross::cells(toks),
         "cross" => cross::cross(toks),
         "fsh" => fsrun::run(toks),
+        "fsckfile" => fsckrun::fsck_file(toks),
         _ => format!("unsupported:{}",toks[0])
     }
 }
